@@ -10,6 +10,7 @@ Section Run.
   Variable ed_verify : bytes -> bytes -> bytes -> bool.
   Variable ed_pub : bytes -> bytes.
   Variable ed_sign : bytes -> bytes -> bytes.
+  Variable sha : bytes -> bytes.     (* SHA-256 used by the verifiers: Sha256.sha256 in the kernel path, a checked table in the bulk path *)
 
   Definition call (fn : ustr) (args : list pv) : res pv :=
     let is := ustr_eqb fn in
@@ -51,7 +52,17 @@ Section Run.
           | _ => Unmodelled end
         else Unmodelled
     | [a; b] =>
-        if is (U"verify_root") then unit_res (verify_root ed_verify sha256 a b)
+        if is (U"verify_root") then unit_res (verify_root ed_verify sha a b)
+        else if is (U"root_history") then
+          match b with
+          | VList offers =>
+              let step (st : pv * list pv) (u : pv) :=
+                let (t, vs) := st in
+                if is_ok (verify_root ed_verify sha t u) then (u, VBool true :: vs) else (t, VBool false :: vs) in
+              let (t, vs) := fold_left step offers (a, []) in
+              fb <- canonserialize t ;; Ok (VList [VList (rev vs); VBytes fb])
+          | _ => Unmodelled
+          end
         else if is (U"serialize_and_sign") then serialize_and_sign ed_sign a b
         else if is (U"sign_signable") then sign_signable ed_pub ed_sign a b
         else if is (U"sign_all_value") then sign_all_value ed_pub ed_sign a b
@@ -59,11 +70,11 @@ Section Run.
         else Unmodelled
     | [a; b; c] =>
         if is (U"verify_signature") then unit_res (verify_signature ed_verify a b c)
-        else if is (U"verify_gpg_signature") then unit_res (verify_gpg_signature ed_verify sha256 a b c)
+        else if is (U"verify_gpg_signature") then unit_res (verify_gpg_signature ed_verify sha a b c)
         else Unmodelled
     | [a; b; c; d] =>
-        if is (U"verify_signable") then unit_res (verify_signable ed_verify sha256 a b c d)
-        else if is (U"verify_delegation") then unit_res (verify_delegation ed_verify sha256 a b c d)
+        if is (U"verify_signable") then unit_res (verify_signable ed_verify sha a b c d)
+        else if is (U"verify_delegation") then unit_res (verify_delegation ed_verify sha a b c d)
         else Unmodelled
     | [VInt n1; VInt n2; a; b; c; d; e] =>
         if is (U"build_delegating_metadata") then build_delegating_metadata n1 n2 a b c d e
